@@ -18,7 +18,7 @@ Definition io_pre (pc : iopc) : bool :=
   match pc with
   | IoRd1 | IoRd2 | IoRd3 | IoRd4 | IoWr1 _ | IoWr2 _ | IoWr3 _ | IoRecv _
   | IoRcvAcq _ | IoRcvWc _ | IoRcvCwf _ | IoRcvApp _ | IoRcvRel _
-  | IoHw1 | IoHw2 | IoTry | IoFlush _ | IoSubL _ | IoSubR _ | IoSubW _ _ | IoRelX | IoHwExn => true
+  | IoHw1 | IoHw2 | IoTry | IoFlush | IoSubL _ | IoRelX | IoHwExn => true
   | IoSel r w => r || w
   | _ => false
   end.
@@ -78,11 +78,11 @@ Qed.
 
 Lemma L2_step p s c s' l : L0 s -> L2 s -> step p s c = Some (s', l) -> L2 s'.
 Proof.
-  destruct c as [r res|r|b|a]; cbn [step].
+  destruct c as [r res|r|n|a]; cbn [step].
   - apply L2_step_io.
   - apply L2_step_w.
-  - intros _ H E. ds s. unfold step_tail in E. cbn in E.
-    split_ifs E; try discriminate; inv_some; exact H.
+  - intros _ H E. ds s. unfold step_tail in E. destruct n as [|[|[|[|[|[|n]]]]]]; cbn in E; try discriminate.
+    all: split_ifs E; try discriminate; inv_some; exact H.
   - intros _ H E. ds s. destruct a; cbn in E; split_ifs E; try discriminate; inv_some; exact H.
 Qed.
 
